@@ -224,6 +224,11 @@ func (e *Exec) callFunction(callee *ssa.Function, bindings, args []Value, guard 
 	if con == nil {
 		if dc := e.defaultExtern(callee, key); dc != nil {
 			con = dc
+		} else if inModule(callee) {
+			if r, ok := e.inlineCall(callee, bindings, args, guard); ok {
+				return r
+			}
+			panic(missingContract{key, e.Key})
 		} else {
 			panic(missingContract{key, e.Key})
 		}
